@@ -22,7 +22,10 @@ RULE = ("sparse n x n problems, n from a skewed distribution 1..12 (thorough ..4
         "triple order shuffled. All data dyadic so float arithmetic is exact and (x,y,u,v) is compared bit for bit with "
         "the (AsIs, 2^-26) Gallina model. Tracker: random pairs of label images and identical frames with pairwise "
         "distinct (centroid, area). non-trivial = n >= 2 and some row has >= 2 candidates (tracker: >= 2 objects in a frame); "
-        "distinct by hash of the case")
+        "distinct by hash of the case. Class float-stall (finding F35): dense and sparse has_PM instances, n = 3..6, NON-GRID "
+        "binary64 costs = small integers / halves times column scales (one non-grid scale 1e9..1e18; per-column decimal scales "
+        "1e-7..1e16; one huge column; per-column non-grid scales), k = 0..3 (default 2 emphasised), each in a forked child with a 4 s "
+        "limit; pre-filter by the float64 replay: terminating price wars longer than 3e5 iterations are excluded and counted")
 TRUSTED = [
     "modelled, not verified: np.lexsort / np.bincount / NumPy fancy assignment (last write wins) in lapjv.py's column "
     "reduction; float64 arithmetic (inputs are dyadic and bounded so every operation is exact; the model computes in Z "
@@ -34,8 +37,10 @@ TRUSTED = [
     "lapjv.lapjv inside the worker)",
 ]
 ASSUMPTIONS = [
-    "costs are finite, non-negative, dyadic with <= 30 fractional bits and sum < 2^22 * n^2 so that float64 arithmetic in "
-    "the code is exact (checked per case by the generator)",
+    "ALL Coq theorems about the solver are statements about exact arithmetic on the cost grid: costs are finite, non-negative, "
+    "dyadic with <= 30 fractional bits and sum < 2^22 * n^2 so that float64 arithmetic in the code is exact (checked per case by "
+    "the generator for the grid classes); off that grid (class float-stall) nothing is claimed by a theorem - known finding F35 "
+    "(binary64 stall of augmenting_row_reduction) lives there and is decided by a float64 replay, not by the model",
     "no (i, j) pair is listed twice; the sparsity pattern contains a perfect matching",
     "tracker identity clause: no two objects share both centroid and area",
 ]
@@ -182,7 +187,9 @@ def _sizes(ctx, count):
 
 def generate(ctx):
     rng = ctx.rng
-    cases = list(_corpus_cases())
+    corpus = list(_corpus_cases())
+    flap_first = [c for c in corpus if c["fn"] == "flap"]        # finding F35: the float witnesses, run first
+    cases = [c for c in corpus if c["fn"] != "flap"]
     for n in _sizes(ctx, ctx.n(2000, 30000)):
         pat = PATTERNS[int(rng.randint(len(PATTERNS)))]
         kind = KINDS[int(rng.randint(len(KINDS)))]
@@ -237,10 +244,13 @@ def generate(ctx):
             ctx.count("excluded:model-out-of-fuel(ARR price war)")
         else:
             keep.append(c)
-    cases = keep
+    cases = flap_first + keep
+    cases.extend(_float_stall_cases(ctx))
     cases.extend(_track_cases(ctx))
     for c in cases:
-        if c["fn"] == "lap":
+        if c["fn"] == "flap":
+            ctx.count("flap:%s" % c.get("cls", "corpus")); ctx.count("flap:k=%d" % c["k"])
+        elif c["fn"] == "lap":
             ctx.count("lap:%s" % c.get("pat", "corpus")); ctx.count("cost:%s" % c.get("kind", "corpus"))
             ctx.count("cdt:%s" % c.get("cdt", "list")); ctx.count("idt:%s" % c.get("idt", "list")); ctx.count("lay:%s" % c.get("lay", "c"))
             ctx.count("k=%d" % c["k"]); ctx.count("n<=%d" % (2 if c["n"] <= 2 else 6 if c["n"] <= 6 else 12 if c["n"] <= 12 else 40 if c["n"] <= 40 else 100 if c["n"] <= 100 else 200))
@@ -445,7 +455,157 @@ def _hand2(img, dt, lay):
     return a
 
 
-def _forked(case, limit=8):
+# ---- finding F35: non-grid float costs (class float-stall) ---------------------------------------
+
+def _float_stall_cases(ctx):
+    """has_PM instances with NON-GRID binary64 costs at large magnitudes / mixed column scales: outside the exact cost grid of
+    the Coq model (no model correspondence), judged by hang detection + the float64 replay of augmenting_row_reduction."""
+    rng = ctx.rng
+    out = []
+    for q in range(ctx.n(160, 1200)):
+        n = int(rng.randint(3, 7))
+        dense = q % 3 != 2
+        kind = int(rng.randint(0, 4))
+        if kind == 0:        # small integers times one non-grid scale (witness (ii))
+            scale = float(10.0 ** rng.uniform(9, 17)) * float(rng.uniform(1, 10))
+            colscale = [scale] * n
+        elif kind == 1:      # per-column decimal scales
+            colscale = [float(10.0 ** int(rng.randint(-7, 17))) for _ in range(n)]
+        elif kind == 2:      # one huge column against small ones (witness (i))
+            colscale = [float(10.0 ** int(rng.randint(-7, 2))) for _ in range(n)]
+            colscale[int(rng.randint(n))] = float(10.0 ** int(rng.randint(8, 17)))
+        else:                # per-column non-grid scales
+            colscale = [float(10.0 ** rng.uniform(-3, 16)) for _ in range(n)]
+        perm = list(rng.permutation(n))
+        ftri = []
+        for i in range(n):
+            for j in range(n):
+                if dense or perm[i] == j or rng.rand() < 0.6:
+                    base = float(rng.randint(0, 17)) if rng.rand() < 0.7 else float(rng.randint(0, 4)) * 0.5
+                    ftri.append([i, j, base * colscale[j]])
+        cols = set(t[1] for t in ftri)
+        if len(cols) < n:
+            continue
+        order = list(rng.permutation(len(ftri)))
+        ftri = [ftri[o] for o in order]
+        out.append({"fn": "flap", "n": n, "k": int(rng.randint(0, 4)) if rng.rand() < 0.8 else 2, "ftri": ftri,
+                    "pat": "float-stall", "cls": ("dense" if dense else "sparse") + "/%d" % kind})
+    keep = []
+    for c, g in zip(out, ctx.run_impl(out, fn="impl_classify")):
+        if isinstance(g, dict) and g.get("cap") and not g.get("stall"):
+            ctx.count("excluded:float-long-price-war(terminating: every re-queue lowers a price, > 3e5 iterations; candidate C01-T2)")
+        else:
+            keep.append(c)
+    return keep
+
+
+def _arr_replay(n, ii, jj, idx, count, x, y, v, c, cap=3000000):
+    """augmenting_row_reduction of _lapjv.pyx:180-215 in Python float64, operation for operation (same scan order, same
+    strict / tie decisions, `v[j1] - u2 + u1` evaluated left to right, eps = sqrt(finfo(float64).eps)), on COPIES of the
+    arguments the real function is about to receive.  (lapjv.py's slow_augmenting_row_reduction is NOT the same: it sorts
+    with lexsort and has no eps.)  Stall = the loop state (k, pending rows, x, y, v, j2, #free) repeats at an eviction
+    whose price update left v[j1] bit-identical although u1 + eps < u2: the loop is deterministic, so it never ends."""
+    INF = float("inf")
+    eps = float(np.sqrt(np.finfo(np.float64).eps))
+    p_i = [int(t) for t in ii]; n_i = len(p_i)
+    jj = [int(t) for t in jj]; idx = [int(t) for t in idx]; count = [int(t) for t in count]
+    x = [int(t) for t in x]; y = [int(t) for t in y]; v = [float(t) for t in v]; c = [float(t) for t in c]
+    k = 0; j1 = j2 = 0; nfree = 0; seen = {}; it = 0
+    while k < n_i:
+        it += 1
+        if it > cap:
+            return {"stall": False, "cap": True, "iterations": it}
+        i = p_i[k]; k += 1
+        base = idx[i]; u1 = INF; u2 = INF
+        for jjj in range(count[i]):
+            j = jj[base + jjj]; temp = c[base + jjj] - v[j]
+            if temp < u1:
+                u2 = u1; j2 = j1; u1 = temp; j1 = j
+            elif temp < u2:
+                u2 = temp; j2 = j
+        i1 = y[j1]
+        strict = (u1 + eps < u2)
+        nochange = False
+        if strict:
+            old = v[j1]
+            nv = old - u2 + u1
+            nochange = (nv == old)
+            v[j1] = nv
+        elif i1 != n:
+            j1 = j2; i1 = y[j1]
+        if i1 != n:
+            if strict:
+                k -= 1; p_i[k] = i1
+            else:
+                nfree += 1
+        x[i] = j1; y[j1] = i
+        if strict and nochange and i1 != n:
+            st = (k, tuple(p_i[k:]), tuple(x), tuple(y), tuple(v), j2, nfree)
+            if st in seen:
+                return {"stall": True, "iterations": it, "first_seen": seen[st], "row": i, "evicted": i1, "col": j1,
+                        "v": old.hex(), "u1": u1.hex(), "u2": u2.hex()}
+            seen[st] = it
+    return {"stall": False, "iterations": it}
+
+
+class _Stall(Exception):
+    pass
+
+
+def _flap_args(case):
+    ft = case["ftri"]
+    return (np.array([t[0] for t in ft], dtype=np.int64), np.array([t[1] for t in ft], dtype=np.int64),
+            np.array([float(t[2]) for t in ft], dtype=np.float64))
+
+
+def _impl_flap(case):
+    from centrosome.lapjv import lapjv
+    i, j, c = _flap_args(case)
+    x, y, u, v = lapjv(i, j, c, wants_dual_variables=True, augmenting_row_reductions=case["k"])
+    return {"x": [int(t) for t in x], "y": [int(t) for t in y], "uf": [float(t).hex() for t in u], "vf": [float(t).hex() for t in v]}
+
+
+def _guarded_flap(case, cap=3000000, stop_on_cap=False):
+    """the real lapjv with augmenting_row_reduction guarded by the float64 replay: before every real call the replay runs on
+    copies of its arguments (so phases 1-2 are the REAL column reduction and reduction_transfer); a proven stall stops the
+    run, otherwise the real function is called"""
+    import centrosome.lapjv as LM
+    real = LM.augmenting_row_reduction
+    info = {"passes": []}
+
+    def wrapper(n, ii, jj, idx, count, x, y, u, v, cc):
+        r = _arr_replay(n, ii, jj, idx, count, x, y, v, cc, cap=cap)
+        info["passes"].append(r)
+        if r["stall"] or (stop_on_cap and r.get("cap")):
+            raise _Stall()
+        return real(n, ii, jj, idx, count, x, y, u, v, cc)     # also after an inconclusive replay (iteration cap): a long, terminating price war
+    LM.augmenting_row_reduction = wrapper
+    try:
+        i, j, c = _flap_args(case)
+        try:
+            out = LM.lapjv(i, j, c, True, case["k"])
+            info["x"] = [int(t) for t in out[0]]; info["y"] = [int(t) for t in out[1]]
+        except _Stall:
+            info["x"] = None
+    finally:
+        LM.augmenting_row_reduction = real
+    info["stall"] = bool(info["passes"] and info["passes"][-1]["stall"])
+    info["cap"] = any(p_.get("cap") for p_ in info["passes"])
+    return info
+
+
+def impl_guarded(case):
+    return _forked(case, limit=60, fn=_guarded_flap)
+
+
+def impl_classify(case):
+    """generator pre-filter for the float-stall class: stall (F35 class, kept) / completes (kept) / no end within 3e5 iterations
+    of a pass although every re-queue lowers a price (a terminating but astronomically long price war - the float analogue
+    of the grid class's 'price war beyond the model's fuel'; excluded and counted, reported as candidate C01-T2)"""
+    return _forked(case, limit=60, fn=lambda c: _guarded_flap(c, cap=300000, stop_on_cap=True))
+
+
+def _forked(case, limit=8, fn=None):
     """run _impl_lap in a forked child: a crash (signal) or a hang of the implementation is reported as an outcome of
     this case instead of killing / stalling the worker (finding F20: undefined behaviour after an empty rebuild of scan)"""
     import os, select, signal
@@ -455,7 +615,7 @@ def _forked(case, limit=8):
         try:
             os.close(rd)
             try:
-                r = _impl_lap(case)
+                r = (fn or _impl_lap)(case)
             except BaseException as e:
                 r = {"exc": type(e).__name__, "msg": str(e)[:300]}
             os.write(wr, json.dumps(r).encode())
@@ -483,6 +643,8 @@ def _forked(case, limit=8):
 
 
 def impl(case):
+    if case["fn"] == "flap":
+        return _forked(case, limit=4, fn=_impl_flap)
     if case["fn"] == "lap" and (case.get("f20") or case.get("pat") == "forced-expensive"):
         return _forked(case)
     if case["fn"] == "lap":
@@ -608,6 +770,8 @@ def model(ctx, cases, outs):
 
 
 def compare(case, out, m):
+    if case["fn"] == "flap":
+        return None     # non-grid float costs: outside the exact cost grid of the Coq model, no correspondence claimed (finding F35)
     if case["fn"] == "lap" and case.get("f20") and (isinstance(m, dict) or m == []):
         # the faithful model stops at the empty rebuild of scan; what the real code does from there (it reads
         # p_scan[low] past `up`) is undefined, so there is nothing to compare; check() + attribution decide
@@ -825,11 +989,69 @@ def _attribute_batch(ctx, cases, outs):
         rest = nxt
 
 
+_FLAP = {}      # float-stall case -> outcome of the guarded run (float64 replay of augmenting_row_reduction)
+
+
+def _fkey(case):
+    return json.dumps([case["n"], case["k"], case["ftri"]])
+
+
+def _flap_check(ctx, cases, outs, res):
+    """float-stall cases.  Hang / crash: failure, attributed by attribute() through the replay.  Returned: (a) the replay must
+    not report a stall (replay and implementation must agree on termination); (b) x is a perfect matching over listed pairs
+    and y its inverse; (c) dense inputs (where F1 cannot show: every row has the same column list): the cost of x is within
+    n * 2^-26 + 2^-40 * sum(c) of the exact optimum (brute force over permutations in exact rational arithmetic; the slack
+    covers the eps tie band F6 and binary64 rounding of the prices).  For SPARSE float inputs (c) is counted, not judged:
+    attributing a non-optimal answer to F1 / F6 needs the exact model, which does not apply off the grid."""
+    from fractions import Fraction
+    fi = [k for k, c in enumerate(cases) if c["fn"] == "flap"]
+    if not fi:
+        return
+    gs = ctx.run_impl([cases[k] for k in fi], fn="impl_guarded")
+    for k, g in zip(fi, gs):
+        c, o = cases[k], outs[k]
+        _FLAP[_fkey(c)] = g
+        n = c["n"]
+        if _bad(o):
+            ctx.count("flap:outcome:" + ("hang" if "hangs" in str(o.get("crash", "")) else "crash/exception"))
+            continue            # res[k] already says so
+        ctx.count("flap:outcome:returned")
+        if isinstance(g, dict) and g.get("cap") and not g.get("stall"):
+            ctx.count("flap:replay-inconclusive(no stall within 3e6 iterations: long terminating price war; implementation returned)")
+        if _bad(g) or g.get("stall"):
+            res[k] = "float64 replay of augmenting_row_reduction reports %s but the implementation returned" % (
+                "a stall" if isinstance(g, dict) and g.get("stall") else str(g)[:200])
+            continue
+        x, y = o["x"], o["y"]
+        cost = {(t[0], t[1]): Fraction(float(t[2])) for t in c["ftri"]}
+        if not (len(x) == n and len(y) == n and sorted(x) == list(range(n)) and all(y[x[r]] == r for r in range(n))
+                and all((r, x[r]) in cost for r in range(n))):
+            res[k] = "lapjv on float costs: x is not a perfect matching over listed pairs / y is not its inverse"
+            continue
+        got = sum(cost[(r, x[r])] for r in range(n))
+        best = None
+        for perm in itertools.permutations(range(n)):
+            if all((r, perm[r]) in cost for r in range(n)):
+                t = sum(cost[(r, perm[r])] for r in range(n))
+                if best is None or t < best:
+                    best = t
+        tol = Fraction(n, 1 << 26) + sum(cost.values()) / (1 << 40)
+        dense = len(cost) == n * n
+        if got - best > tol:
+            if dense:
+                res[k] = "lapjv on dense float costs: cost of x exceeds the optimum by %s (tolerance %s)" % (float(got - best), float(tol))
+            else:
+                ctx.count("flap:sparse:non-optimal-beyond-tolerance(counted, not judged: F1/F6 attribution needs the exact model)")
+        else:
+            ctx.count("flap:returned:optimal-within-tolerance(%s)" % ("dense" if dense else "sparse"))
+
+
 def check(ctx, cases, outs):
     res = [None] * len(cases)
     for k, o in enumerate(outs):
         if _bad(o):
             res[k] = "implementation raised/crashed on a valid input: %s" % (str(o)[:300],)
+    _flap_check(ctx, cases, outs, res)
     li = [k for k, c in enumerate(cases) if c["fn"] == "lap" and not _bad(outs[k])]
     ver = _lap_verdicts(ctx, [cases[k] for k in li], [(outs[k]["x"], outs[k]["y"], outs[k]["u"], outs[k]["v"]) for k in li])
     for k, v in zip(li, ver):
@@ -929,6 +1151,8 @@ def check(ctx, cases, outs):
 
 
 def nontrivial(case, out):
+    if case["fn"] == "flap":
+        return case["n"] >= 2
     if case["fn"] == "lap":
         rows = {}
         for t in case["tri"]:
@@ -966,6 +1190,17 @@ def attribute(ctx, case, out, clause):
     F1 / F6: the implementation must equal the faithful model bit for bit; F1 iff the (Fixed, 2^-26) model satisfies the
          property on this input; F6 iff that one does not but (Fixed, 0, 2^-26) or (Fixed, 0, 0) does (Fixed variants are
          run with the true infinity).  Anything else is a new violation."""
+    if case.get("fn") == "flap":
+        # F35 iff the implementation HANGS and the float64 replay of augmenting_row_reduction (on the real arguments after the
+        # real phases 1-2) reaches a provable cycle: an eviction whose price update leaves v[j1] bit-identical although
+        # u1 + eps < u2, in a loop state that repeats.  A hang without such a stall, a crash, or a wrong answer: violation.
+        if not (_bad(out) and "hangs" in str(out.get("crash", "") if isinstance(out, dict) else "")):
+            return None
+        g = _FLAP.get(_fkey(case))
+        if g is None:
+            g = ctx.run_impl([case], fn="impl_guarded")[0]
+            _FLAP[_fkey(case)] = g
+        return "F35" if (isinstance(g, dict) and g.get("stall")) else None
     if case.get("fn") != "lap":
         return None
     k = _key(case, out)
@@ -1072,7 +1307,7 @@ def shrink_candidates(case):
 
 MANIFEST = {
     "level_text": (
-        "Machine-checked proofs (Coq 8.16, 69 theorems, all closed under the global context) about (a) the certificate "
+        "Machine-checked proofs (Coq 8.16, 71 theorems: 70 closed under the global context, 1 - C01_arr_float_stall_refuted - resting on the kernel's primitive float / int63 operations only) about (a) the certificate "
         "checker cert_ok that is run, extracted, on the implementation's own (x, y, u, v): acceptance implies x is a "
         "minimum-cost perfect matching over listed pairs, y its inverse and (u, v) a dual certificate, for every n and every "
         "sparsity pattern; (b) a line-level executable Gallina model of lapjv.py + _lapjv.pyx with switches rt in {AsIs, Fixed}, "
@@ -1102,6 +1337,22 @@ MANIFEST = {
         "leave no pending row (C01_lapjv_ref_fixed_correct_nofree); (c) the tracker's read-back of the solver result "
         "is injective for every permutation, and the identity clause holds at the level of the assignment problem."),
     "level_note": (
+        "SCOPE: every C01 theorem about the solver is about EXACT arithmetic on the cost grid (the model computes in Fin Z | +inf | "
+        "-inf | NaN; the grid classes of the check feed dyadic costs on which binary64 is exact). KNOWN FINDING F35 is the float "
+        "phenomenon OUTSIDE that grid (inside the property's quantifier): with augmenting_row_reductions >= 1 (default 2) lapjv never "
+        "returns on some inputs with finite non-negative costs - in augmenting_row_reduction the update v[j1] = v[j1] - u2 + u1 rounds "
+        "back to v[j1] in binary64 although u2 - u1 > eps, the evicted row is re-queued and two rows evict each other forever "
+        "(C01_arr_float_stall_refuted: kernel-evaluated binary64 values; C01_arr_update_strict_exact: in the exact model the same update "
+        "strictly lowers the price, so the model's termination argument does not transfer). The check runs a class `float-stall` "
+        "(non-grid float costs at large magnitudes / mixed column scales, dense and sparse, the witnesses first) fork-isolated with a "
+        "4 s limit; a hang is attributed to F35 iff a Python float64 replay of augmenting_row_reduction, operation for operation the "
+        ".pyx, run on the arguments the real function receives after the real phases 1-2, reaches a repeating loop state at an "
+        "eviction whose price update left v[j1] bit-identical; a hang without such a stall is a VIOLATION; a stall reported on an input "
+        "where the implementation returns fails the check. There is NO model correspondence for this class; returned answers are "
+        "judged directly (perfect matching over listed pairs, inverse; dense: optimal within n * 2^-26 + 2^-40 * sum(c); sparse: optimality "
+        "counted, not judged, because F1 / F6 attribution needs the exact model). Excluded and counted, as for the grid classes: "
+        "terminating but astronomically long price wars (every re-queue lowers a price; run time grows linearly with cost range / gap - "
+        "candidate C01-T2, reported to the coordinator, not a known finding). "
         "KNOWN FINDING F20 (inside the property's quantifier): memory safety of augment FAILS - `inf = np.sum(c) + 1` "
         "(_lapjv.pyx:296) is not larger than every reduced cost once prices are negative; a rebuild of scan then finds no "
         "column and the code reads p_scan[low] past `up` (SIGSEGV / garbage / hang; witness n = 4 with a unique perfect "
